@@ -21,10 +21,10 @@ func init() {
 			"(R3) the observer counter is incremented on every path that registers an observer, decremented where one is removed and zeroed on reset; (R4) archetype uniqueness site (C01/R7). Not decided: numeric equality with the world for every history.",
 		TrustedBase: []string{"go/types, go/cfg", "frozen table of statistics fields that are immutable after archetype creation"},
 		Rules: []Rule{
-			{ID: "C19/R1", Run: c19r1, Min: 10},
-			{ID: "C19/R2", Run: c19r2, Min: 7},
-			{ID: "C19/R3", Run: c19r3, Min: 3},
-			{ID: "C19/R4", Run: c01r7, Min: 3},
+			{ID: "C19/R1", Run: c19r1, Min: 1},
+			{ID: "C19/R2", Run: c19r2, Min: 1},
+			{ID: "C19/R3", Run: c19r3, Min: 1},
+			{ID: "C19/R4", Run: c01r7, Min: 1},
 		},
 	})
 }
